@@ -115,10 +115,13 @@ Definition pixmod (fmt : pixfmt) (v : Z) : Z := v mod (2 ^ (8 * bpp fmt)).
 (* bit `0x80 >> (i & 7)` of a bitmap byte *)
 Definition bit_of (byte i : Z) : bool := Z.testbit byte (7 - i mod 8).
 
-(* rfbMakeRichCursorFromXCursor: background/foreground words, low bpp bytes stored *)
+(* rfbMakeRichCursorFromXCursor: background/foreground words, low bpp bytes stored.
+   Since the fix of F15e: `(((uint32_t)max * (uint32_t)comp) / 0xffff) << shift` per channel *)
 Definition rgb_word (fmt : pixfmt) (c3 : Z * Z * Z) : Z :=
   let '(r, g, b) := c3 in
-  Z.lor (Z.lor (u32 (Z.shiftl r (rshift fmt))) (u32 (Z.shiftl g (gshift fmt)))) (u32 (Z.shiftl b (bshift fmt))).
+  Z.lor (Z.lor (u32 (Z.shiftl (u32 (rmax fmt * r) / 65535) (rshift fmt)))
+               (u32 (Z.shiftl (u32 (gmax fmt * g) / 65535) (gshift fmt))))
+        (u32 (Z.shiftl (u32 (bmax fmt * b) / 65535) (bshift fmt))).
 
 (* a NULL pointer is an array without elements: dereferencing it is the error value *)
 Definition opt_list {A} (o : option (list A)) : list A := match o with Some l => l | None => [] end.
